@@ -59,7 +59,7 @@ APPEND = {
  'C17': ' Multi-block shapes (13x13x9, 13x6x7, 9x9x10, ... per ISA/type) reach the second and later kernel blocks and the masked remainder; the four (Tensor|expression) overloads at 6x6x6 / 5x7x4 for every tag pair.',
  'C20': ' Every assignment operator through a map with another map, the map itself, a second map over the same storage and an expression reading the destination on the right (int: = += -=; float: all five, UF).',
 }
-THOROUGH = ' Thorough tier: every quick-tier case plus a seeded family-stratified sample of the larger thorough box, capped at VERIF_THOROUGH_CAP (default 3000) cases.'
+THOROUGH = ' Thorough tier: every quick-tier case plus a seeded family-stratified sample of the larger thorough box, capped at VERIF_THOROUGH_CAP (default 1500) cases.'
 def main():
     for k, v in APPEND.items(): CHECKS[k]['text'] += v
     for k in CHECKS: CHECKS[k]['text'] += THOROUGH
